@@ -1432,3 +1432,20 @@ Proof.
     rewrite (map_nth g). reflexivity. }
   rewrite !Hnth by lia. ring.
 Qed.
+
+(* round 7: the analog lines come in ascending on-disk order *)
+Lemma analog_indices_order c0 c1 c2 c3 :
+  length (analog_indices 1 c0 c1 c2 c3) = Z.to_nat c2 /\
+  (forall k, (k < Z.to_nat c2)%nat -> nth k (analog_indices 1 c0 c1 c2 c3) 0 = c0 + c1 + Z.of_nat k) /\
+  StronglySorted Z.lt (analog_indices 1 c0 c1 c2 c3).
+Proof.
+  rewrite analog_indices_spec. change (1 =? 1) with true. cbv iota.
+  split; [now rewrite map_length, seq_length|]. split.
+  - intros k Hk. set (g := fun i : nat => c0 + c1 + Z.of_nat i).
+    rewrite (nth_indep _ 0 (g 0%nat)) by (rewrite map_length, seq_length; exact Hk).
+    rewrite (map_nth g), seq_nth by exact Hk. reflexivity.
+  - generalize (Z.to_nat c2) 0%nat. intros n. induction n as [|n IH]; intros s; cbn [seq map]; constructor.
+    + apply IH.
+    + apply Forall_forall. intros y Hy. apply in_map_iff in Hy. destruct Hy as [j [<- Hj]].
+      apply in_seq in Hj. lia.
+Qed.
